@@ -155,6 +155,19 @@ def run(rep):
             cgate[k] = proto.accept_gate(hb, r"self\.version$") if hb is not None else None
     gated_b = {k: v for k, v in bgate.items() if isinstance(v, int)}
     gated_c = {k: v for k, v in cgate.items() if isinstance(v, int)}
+    # a gated kind is rejected below its version whatever else the request contains: every accepting exit of the handler
+    # other than "requester gone" lies behind the gate (a gate that is only checked after some lookup succeeded lets an old
+    # connection use the newer message whenever that lookup fails)
+    for k, gate in sorted(gated_b.items()):
+        hb = M[bd[k][0]]
+        for o in proto.ok_exit_blocks(hb):
+            g = hb.guard_strings(o)
+            if any(re.search(r"^None=discr\(self\.conns\[id\]\)$", x) for x in g):
+                continue
+            lo = proto.version_bounds(g, MAIN_ID_VERSION)[0]
+            rep.check(lo is not None and lo >= gate, "C12-R2", hb.def_, "gate-before-every-accept:%s" % k,
+                      "the handler of %s (a %d-minor feature) has an accepting exit that is not behind its version gate: a connection negotiated below 1.%d can use the message on that path without being closed" % (k, gate, gate),
+                      line=hb.span, detail={"guards": g[-4:]})
     rep.floor("C12-R2", "broker-gated kinds", len(gated_b), 11)
     rep.floor("C12-R2", "client-gated kinds", len(gated_c), 7)
     rep.analysed["broker_gates"] = gated_b
